@@ -409,7 +409,16 @@ func (c *Ctx) instField(st *State, inst Term, name string) Term {
 	panic(unsupported("insts.Inst has no field %s", name))
 }
 
-var isaOperandField = map[string]string{"D": "Dst", "S0": "Src0", "S1": "Src1", "S2": "Src2", "SDST": "SDst", "SIMM16": "SImm16"}
+var isaOperandField = map[string]string{"D": "Dst", "S0": "Src0", "S1": "Src1", "S2": "Src2", "SDST": "SDst", "MDST": "Dst", "SIMM16": "SImm16"}
+
+// maskDst: the per-lane mask destination of an entry: SDSTBIT writes the SDST field (VOP3b), MDSTBIT the
+// destination field itself (VOP3a compares, whose 64-bit result goes to an SGPR pair named by VDST).
+func maskDst(e *IsaEntry) (key, field string) {
+	if e.Eff["MDSTBIT"] != nil {
+		return "MDSTBIT", "Dst"
+	}
+	return "SDSTBIT", "SDst"
+}
 
 // isaRequires: operand well-formedness for the widths the table gives.
 func (c *Ctx) isaRequires(st *State, e *IsaEntry) {
@@ -442,7 +451,7 @@ func (c *Ctx) isaRequires(st *State, e *IsaEntry) {
 		isSr := raw("(isa.isS "+d.rt.S+")", SBool)
 		kc := func(n string) Term { return Eq(d.rt, BVLitI(w.instsConst(n), 64)) }
 		scalarDstKinds := Or(isSr, kc("VCCLO"), kc("VCCHI"), kc("EXECLO"), kc("M0"))
-		if opn == "D" || opn == "SDST" {
+		if opn == "D" || opn == "SDST" || opn == "MDST" {
 			wf = And(wf, isReg, raw(fmt.Sprintf("(isa.wrdefined %s %s %s)", d.rt.S, d.bs.S, d.rc.S), SBool))
 			if e.PerLane && opn == "D" {
 				wf = And(wf, isVr) // vector destination (VDST field)
@@ -499,7 +508,7 @@ func isaObligations(f *Frame, rst *State, ct *Contract, post *Scope) {
 	if !e.PerLane {
 		sc := evalAt(lane0)
 		// order of effects: destination write first, then condition codes (aliasing: D may be VCC/EXEC/SCC itself)
-		for _, key := range []string{"D", "SDST"} {
+		for _, key := range []string{"D", "SDST", "MDST"} {
 			if ex, ok := e.Eff[key]; ok {
 				guard(key, func() {
 					op := c.instField(entry, inst, isaOperandField[key])
@@ -524,16 +533,17 @@ func isaObligations(f *Frame, rst *State, ct *Contract, post *Scope) {
 		// the lane loop was summarised by an invariant (lanes.go): the prescribed state is
 		// stated per cell (skolem lane / register) and through the 64-lane masks
 		laneDone = ls
-		if e.Eff["SDSTBIT"] != nil {
-			op := c.instField(entry, inst, "SDst")
-			c.wrOperand(spec, op, lane0, ls.full("SDSTBIT"))
+		if mk, mf := maskDst(e); e.Eff[mk] != nil {
+			op := c.instField(entry, inst, mf)
+			c.wrOperand(spec, op, lane0, ls.full(mk))
 		}
 	} else {
 		exec := c.ghost(entry, "G_exec")
 		vccAcc := c.ghost(entry, "G_vcc")
 		var sdstAcc Term
 		hasVccBit := e.Eff["VCCBIT"] != nil
-		hasSdstBit := e.Eff["SDSTBIT"] != nil
+		mk, mf := maskDst(e)
+		hasSdstBit := e.Eff[mk] != nil
 		if hasVccBit {
 			vccAcc = BVLitI(0, 64)
 		}
@@ -561,8 +571,8 @@ func isaObligations(f *Frame, rst *State, ct *Contract, post *Scope) {
 				})
 			}
 			if hasSdstBit {
-				guard("SDSTBIT", func() {
-					bit := to(sc.eval(e.Eff["SDSTBIT"]), 64)
+				guard(mk, func() {
+					bit := to(sc.eval(e.Eff[mk]), 64)
 					sdstAcc = c.Def("sdstacc", Ite(active, BVOr(sdstAcc, BVShl(BVAnd(bit, BVLitI(1, 64)), lane)), sdstAcc))
 				})
 			}
@@ -571,7 +581,7 @@ func isaObligations(f *Frame, rst *State, ct *Contract, post *Scope) {
 			spec.mem["G_vcc"] = vccAcc
 		}
 		if hasSdstBit {
-			op := c.instField(entry, inst, "SDst")
+			op := c.instField(entry, inst, mf)
 			c.wrOperand(spec, op, lane0, sdstAcc)
 		}
 	}
